@@ -303,12 +303,14 @@ class Sectionable(BaseObject):
 
             self._validate_no_cycle(section)
 
-            # If required remove the Section from its previous parent first,
-            # an object must never be a child of two parents.
-            if section._parent is not None:
-                section._parent.remove(section)
-
+            # Insert first: a position that is not an index is refused by the list
+            # before anything has been changed.
+            old_parent = section._parent
             self._sections.insert(position, section)
+            # If required remove the Section from its previous parent,
+            # an object must never be a child of two parents.
+            if old_parent is not None:
+                old_parent.remove(section)
             section._parent = self
         else:
             raise ValueError("Can only insert objects of type Section.")
